@@ -9,7 +9,10 @@ Open Scope N_scope.
 
 Inductive case :=
 | CName (format tag formatted observed : bytes)
-| CUuid (xuid : Z) (observed : bytes).
+| CUuid (xuid : Z) (observed : bytes)
+(* the identity APPLIED by the real onGameProfile handler (GameProfileRequestEvent.GameProfile after the
+   handler ran) for one Bedrock config: username format, BackendFloodgate.Enabled; [formatted] as in CName *)
+| CProfile (format tag formatted : bytes) (xuid : Z) (backend_floodgate : bool) (obs_name obs_id : bytes).
 
 (* 1 to 16 characters drawn only from A-Z, a-z, 0-9 and underscore *)
 Definition valid_java_name (n : bytes) : bool :=
@@ -29,5 +32,13 @@ Definition judge (c : case) : verdict :=
     else VViolation
   | CUuid xuid observed =>
     if rfc4122_v5 observed then (if beq_bytes observed (java_uuid xuid) then VOk else VMismatch)
+    else VViolation
+  | CProfile format tag formatted xuid _ obs_name obs_id =>
+    (* whatever the configuration: a valid Java name and an RFC 4122 UUID, equal to the model's *)
+    if valid_java_name obs_name && rfc4122_v5 obs_id then
+      (if beq_bytes obs_name (java_compatible_username formatted)
+          && (negb (simple_format format) || beq_bytes obs_name (java_name format tag))
+          && beq_bytes obs_id (java_uuid xuid)
+       then VOk else VMismatch)
     else VViolation
   end.
